@@ -429,6 +429,45 @@ func run(c *mon.Ctx) {
 		if len(m.ElementaryStreams()) != left || len(m.Pids()) != left {
 			c.Fail("remove:count-after-second-removal", fmt.Sprintf("%d streams / %d PIDs left after two removals, expected %d", len(m.ElementaryStreams()), len(m.Pids()), left), w)
 		}
+		// the same bytes decoded again after streams were removed from the first result: all streams are there
+		// again, and removing from the new result leaves exactly the others
+		if m2, err := psi.NewPMT(append([]byte{}, payload...)); err != nil || m2 == nil {
+			c.Fail("remove:decode-again", fmt.Sprintf("the same payload was rejected when decoded again: %v", err), w)
+		} else {
+			c.Count("remove.decoded_again_after_removal")
+			ess2, pids2 := m2.ElementaryStreams(), m2.Pids()
+			ok := len(ess2) == len(p.Streams) && len(pids2) == len(p.Streams)
+			for k := 0; ok && k < len(p.Streams); k++ {
+				ok = ess2[k].ElementaryPid() == p.Streams[k].PID && pids2[k] == p.Streams[k].PID && ess2[k].StreamType() == p.Streams[k].Type
+			}
+			if !ok {
+				c.Fail("remove:decode-again-after-removal", fmt.Sprintf("after %v were removed from an earlier result, decoding the same bytes again yields %d streams / PIDs %v; the section lists %d", rm, len(ess2), pids2, len(p.Streams)), w)
+				return
+			}
+			var rm3 []int
+			gone3 := map[int]bool{}
+			for _, s := range p.Streams {
+				if r.Chance(3) {
+					rm3 = append(rm3, s.PID)
+					gone3[s.PID] = true
+				}
+			}
+			m2.RemoveElementaryStreams(rm3)
+			var left3 []int
+			for _, s := range p.Streams {
+				if !gone3[s.PID] {
+					left3 = append(left3, s.PID)
+				}
+			}
+			ess3 := m2.ElementaryStreams()
+			ok = len(ess3) == len(left3) && len(m2.Pids()) == len(left3)
+			for k := 0; ok && k < len(left3); k++ {
+				ok = ess3[k].ElementaryPid() == left3[k] && m2.Pids()[k] == left3[k]
+			}
+			if !ok {
+				c.Fail("remove:on-a-second-decode-of-the-same-bytes", fmt.Sprintf("removing %v from a second decode of the same bytes leaves %v, expected %v", rm3, m2.Pids(), left3), w)
+			}
+		}
 		if len(rm) > 0 {
 			c.Class(fmt.Sprintf("remove/removed=%d/of=%d", min(len(gone), 4), min(len(p.Streams), 9)))
 		}
